@@ -93,7 +93,7 @@ fn failing_enc_calls(rng: &mut Rng, enc: &mut dyn DynEnc, size: usize, log: &mut
 fn encoder_history(rng: &mut Rng, out: &mut CaseOut) {
     let fills0 = hooks::poison_fills();
     let poisoned = hooks::armed() && rng.chance(1, 2);
-    let rounds = rng.range(2, 8);
+    let rounds = rng.range(2, if crate::thorough() { 20 } else { 8 });
     let mut api = pick_api(rng, true);
     let mut log: Vec<String> = Vec::new();
     let mut enc: Option<Box<dyn DynEnc>> = None;
@@ -300,7 +300,7 @@ fn failing_dec_calls(rng: &mut Rng, dec: &mut dyn DynDec, size: usize, log: &mut
 fn decoder_history(rng: &mut Rng, out: &mut CaseOut) {
     let fills0 = hooks::poison_fills();
     let poisoned = hooks::armed() && rng.chance(1, 2);
-    let rounds = rng.range(2, 8);
+    let rounds = rng.range(2, if crate::thorough() { 20 } else { 8 });
     let mut api = pick_api(rng, true);
     let mut log: Vec<String> = Vec::new();
     let mut dec: Option<Box<dyn DynDec>> = None;
